@@ -1,0 +1,71 @@
+// Copyright 2025 CloudWeGo Authors
+//
+// Licensed under the Apache License, Version 2.0 (the "License");
+// you may not use this file except in compliance with the License.
+// You may obtain a copy of the License at
+//
+//     http://www.apache.org/licenses/LICENSE-2.0
+//
+// Unless required by applicable law or agreed to in writing, software
+// distributed under the License is distributed on an "AS IS" BASIS,
+// WITHOUT WARRANTIES OR CONDITIONS OF ANY KIND, either express or implied.
+// See the License for the specific language governing permissions and
+// limitations under the License.
+
+//go:build !verif
+// +build !verif
+
+package netpoll
+
+import "unsafe"
+
+// vp is a verification schedule/trace point; it is empty (and inlined away) unless built with `-tags verif`.
+func vp(pt int32, obj unsafe.Pointer, a, b int64) {}
+
+const (
+	vpCloseBy = 1
+	vpStatus = 2
+	vpForce = 3
+	vpLock = 4
+	vpUnlock = 5
+	vpStopSpin = 6
+	vpIsUnlock = 7
+	vpOpDo = 10
+	vpOpDone = 11
+	vpOpInuseSpin = 12
+	vpOpUnusedSpin = 13
+	vpOpControl = 14
+	vpOpReset = 15
+	vpCacheAlloc = 16
+	vpCacheFreeable = 17
+	vpCacheFree = 18
+	vpTrigRead = 20
+	vpTrigWrite = 21
+	vpWaitRead = 22
+	vpWaitReadT = 23
+	vpWaitWrite = 24
+	vpWaitWriteT = 25
+	vpTimerDrainR = 26
+	vpTimerDrainW = 27
+	vpSendmsg = 28
+	vpWaitWriteT2 = 29
+	vpLenAdd = 30
+	vpLenLoad = 31
+	vpWaitSize = 32
+	vpState = 33
+	vpSpawnHup = 40
+	vpHupStart = 41
+	vpHandlerEvent = 42
+	vpPollExit = 43
+	vpFdClose = 50
+	vpFdOpen = 51
+	vpSrvAccept = 60
+	vpSrvCheck = 61
+	vpSrvStore = 62
+	vpSrvClose = 63
+	vpPmStatus = 65
+	vpPmRun = 66
+	vpPdWait = 70
+	vpPdEvent = 71
+	vpDialConnect = 72
+)
